@@ -239,12 +239,18 @@ class EncFrame(Component):
                             f['pcm'] = gen.join([a] * k + [b] * (n - k))
                             out.append('encframe ' + gen.fields_str(f))
         # incompressible blocks long enough for any expansion to outgrow the per-subframe allowance, with and without LPC
-        for sh in ('noise', 'alt', 'edge'):
+        for sh in ('noise', 'alt', 'edge', 'sticky1w'):
             for n in (256, 1024) + ((4096,) if tier == 'thorough' else ()):
                 for bps in (8, 16, 24):
                     for o in ({'lpc': 'none'}, {'lpc': 'none', 'po': '0'}, {}, {'lpc': '1', 'po': '0', 'ms': '0'}):
                         out.append(self.one(rng, n, 1, bps, sh, o, 44100))
                         out.append(self.one(rng, n, 2, bps, sh, o, 44100))
+        # signals on which the maximal predictor order wins (subframe type code 111111 and its neighbours on the wire)
+        for n in (200, 600) + ((1152, 4096) if tier == 'thorough' else ()):
+            for bps in (16, 24):
+                for o in ({'lpc': '32'}, {'lpc': '32', 'po': '0', 'win': 'rect'}, {'lpc': '31'}):
+                    out.append(self.one(rng, n, 1, bps, 'period32', o, 44100))
+                    out.append(self.one(rng, n, 2, bps, 'period32', o, 48000))
         nrand = self.budget(tier, boost, 600, 40000)
         for i in range(nrand):
             ch = rng.choice([1, 1, 2, 2, 2, 3, 4, 5, 6, 7, 8])
@@ -663,13 +669,21 @@ class EncFile(Component):
             out.append('wr ' + gen.fields_str(f))
         # more frames than a seek table can hold (932067 points), undeclared length, a point per frame
         out.append('wr fe=sample rate=44100 ch=1 bps=8 bs=16 seek=frames:1 lpc=none pcmgen=const:14913088:3')
+        # declared totals beyond 65535 samples with a seconds policy: the placeholder table reserved up front is sized from frame lengths
+        # computed from the REMAINING samples (more than 16 bits of them), and every real point must find its slot at finalize
+        long_cases = [(8192, 4096, 73728), (10000, 4096, 75536)]
+        if tier == 'thorough' or boost > 1:
+            long_cases += [(8192, 4096, 139264), (8192, 1024, 73728), (44100, 4096, 200000), (4096, 4096, 69632), (12000, 4608, 131072 + 4608 * 3)]
+        for rate, bs, total in long_cases:
+            for declared in (True, False):
+                out.append(f'wr fe=sample ch=1 bps=8 rate={rate} bs={bs} seek=secs:1 lpc=none pcmgen=const:{total}:3' + (f' total={total}' if declared else ''))
         return out
     def oracle(self, case, impl, profile):
         op, cf = parse_case(case)
         h, cls, f = parse_outcome(impl)
         if h == 'panic':
             return (f'{self.name}:panic:{cls}', 'encoder/finalize panicked: ' + cls)
-        if 'pcmgen' in cf:
+        if cf.get('pcmgen', '').startswith('const:14913088'):
             return None if h == 'ok' else (f'{self.name}:failed:{cls}', impl[:200])
         if h != 'ok':
             return (f'{self.name}:failed:{cls}', 'writing a legal file failed: ' + impl[:200])
@@ -1329,6 +1343,15 @@ class UpdateHist(Component):
             slack = (pads[0] if pads else rng.choice([0, 10, 40]))
             edits = '|'.join(metagen.edit_script(rng, slack) for _ in range(rng.choice([1, 1, 2, 4])))
             out.append(f'update file={(meta + frames).hex()} edits={edits} frames={len(frames)}')
+        # the path API (`metadata::update(path, ..)`: the rebuilt file IS the original on disk), with more audio behind the metadata than
+        # one 8 KiB read buffer holds, edit histories that stay in place and that rebuild
+        for _ in range(self.budget(tier, boost, 12, 200)):
+            pads = rng.choice([[], [16], [40], [8, 50]])
+            meta, _fr = metagen.small_file(rng, pads)
+            frames = b'\xff\xf8' + bytes(rng.randrange(256) for _ in range(rng.choice([9000, 20000, 70000])))
+            slack = pads[0] if pads else 10
+            edits = '|'.join(metagen.edit_script(rng, slack) for _ in range(rng.choice([1, 2, 3])))
+            out.append(f'update file={(meta + frames).hex()} edits={edits} frames={len(frames)} path=1')
         if tier == 'thorough' or boost > 1:
             # the 24-bit limit: padding that would have to grow past it, blocks that exceed it (16 MiB files: thorough tier and
             # the escalated search after a broken obligation only)
@@ -1352,6 +1375,8 @@ class UpdateHist(Component):
                 return ('update:frames-disturbed', 'the bytes from the first audio frame onward changed')
             if all(s.startswith('ERR') for s in steps) and final != file0:
                 return ('update:failed-edit-touched-file', 'every step failed but the file changed')
+        elif nfr and f.get('tailsame') == '0':
+            return ('update:frames-disturbed', 'the bytes from the first audio frame onward changed (long file: compared by the harness)')
         elif all(s.startswith('ERR') for s in steps) and fin != _fnv_tag(file0):
             # long files are reported as length + FNV-1a hash
             return ('update:failed-edit-touched-file', 'every step failed but the file changed')
